@@ -84,8 +84,15 @@ func (a *activityManager) BecomeFollower() error {
 		return nil
 	}
 
+	// This can be called more than once without BecomeLeader in between, e.g.
+	// when the leadership is lost again while it is being acquired.
 	if a.leadershipLostCh != nil {
-		close(a.leadershipLostCh)
+		select {
+		case <-a.leadershipLostCh:
+			// Already closed.
+		default:
+			close(a.leadershipLostCh)
+		}
 	}
 	return nil
 }
